@@ -20,6 +20,7 @@ CONSTANTS MODE, EMIT,
           EPI,          \* episodes per call: episodes_per_task / scheduling_interval
           MAXLEN,       \* episode lengths 1..MAXLEN
           LMODE,        \* learner reports "exact" (start+executed) or "short"
+          EXPL,         \* exploring_starts of train_uts (warm-up in absolute steps)
           KK, KAPPA, NAV, RETS, SOLVEDT, UNSOLVT   \* smt: K, kappa, n_average, episode returns, thresholds
 
 VARIABLES sel,    \* selector object (SelInit record)
@@ -96,7 +97,7 @@ SelNext == \/ Select \/ SelectRejected
 (* global_step = train_st(..., global_step=global_step).global_step           *)
 UtsCall == /\ MODE = "uts" /\ acct.gs < T /\ acct.calls < MAXROUNDS
            /\ \E task \in Tasks, lens \in LenVecs :
-                /\ acct' = UtsAfter(acct, Run(acct.gs, T, EPI, lens, LMODE))
+                /\ acct' = UtsAfter(acct, acct.gs, Run(acct.gs, T, EPI, lens, LMODE), UtsWarmup(EXPL, acct.gs), EXPL)
                 /\ hist' = Append(hist, task)
            /\ UNCHANGED <<sel, nfb>>
 
@@ -173,6 +174,8 @@ Executed == IF MODE = "uts" THEN acct.exec ELSE IF MODE \in {"amt", "smt"} THEN 
 Budget   == IF MODE = "smt" THEN T + B2 ELSE T
 BudgetRespected == Executed <= Budget
 UtsExact == MODE = "uts" => acct.gs = acct.exec
+(* no parameter update before exploring_starts environment steps have been executed *)
+NoUpdateBeforeWarmup == MODE = "uts" => ~acct.early
 PerTaskExact == MODE \in {"amt", "smt"} => \A k \in 1..NT : acct.ts[k] = acct.exec[k]
 CounterExact == /\ MODE = "amt" => (IF acct.over THEN ISum(acct.ts) = T ELSE ISum(acct.ts) = acct.gs)
                 /\ MODE = "smt" => ISum(acct.ts) = acct.gs /\ acct.gs <= StageLimit(C, acct)
@@ -207,6 +210,16 @@ Feedback_KeepsFirst(r) ==
   /\ sel' = [SelFeedback(P, sel, r) EXCEPT !.chosen = sel.chosen]
   /\ nfb' = nfb + 1 /\ UNCHANGED <<acct, hist>>
 NextGenBad == Select \/ \E r \in REWARDS : Feedback_KeepsFirst(r)
+
+(* train_uts that hands over "what is left of the warm-up" although the learner *)
+(* compares it with the absolute counter                                       *)
+UtsCall_RelativeWarmup ==
+  /\ MODE = "uts" /\ acct.gs < T /\ acct.calls < MAXROUNDS
+  /\ \E task \in Tasks, lens \in LenVecs :
+       /\ acct' = UtsAfter(acct, acct.gs, Run(acct.gs, T, EPI, lens, LMODE), UtsWarmupRelative(EXPL, acct.gs), EXPL)
+       /\ hist' = Append(hist, task)
+  /\ UNCHANGED <<sel, nfb>>
+NextUtsBad == UtsCall_RelativeWarmup
 
 (* bookkeeping from the learner's reported count instead of the environment's *)
 (* statistics: wrong as soon as a learner reports one short                   *)
